@@ -96,11 +96,16 @@ class Check(PropertyCheck):
         setup = [l for l in lines if l.startswith(("fobs", "fcomp"))]
         tr = gen.Tracker(jobs)
         n_acc = 0
+        resets_left = rng.choice([0, 0, 1, 2])      # truncated episodes: reset while operations are still running
         while not tr.done():
             j, p, m = gen.gen_valid_request(rng, tr)
             tr.take(j)
             n_acc += 1
             lines += [f"disp {j} {p} {m}", "fsnap", "fspec"]
+            if resets_left and rng.random() < 0.15:
+                resets_left -= 1
+                lines += ["reset", "fsnap", "fspec"]
+                tr.reset()
         if rng.random() < 0.3:
             # a second dispatcher with its own observers on the SAME instance object: nothing may leak through the instance
             lines += ["redisp"] + setup + ["fsnap"]
